@@ -250,10 +250,17 @@ def maxBy (xs : List R) : Except Err R :=
 
 /-- the surface bounding box with its buffer (subducting_plate.cc:430-485) -/
 def LineFeature.bbox (f : LineFeature R) (coord : CoordSys R) : Except Err (BBox R) := do
-  let minX ← minBy (f.coords.map (·.x))
-  let maxX ← maxBy (f.coords.map (·.x))
-  let minY ← minBy (f.coords.map (·.y))
-  let maxY ← maxBy (f.coords.map (·.y))
+  let minX0 ← minBy (f.coords.map (·.x))
+  let maxX0 ← maxBy (f.coords.map (·.x))
+  let minY0 ← minBy (f.coords.map (·.y))
+  let maxY0 ← maxBy (f.coords.map (·.y))
+  -- the trench curve lies in the convex hull of its points and control points: the box covers the control points too
+  -- (upstream 'fix: bounding box of slabs and faults ignored the bulge of the trench curve'); `std::min(a,b)` is `b < a ? b : a`, `std::max(a,b)` is `a < b ? b : a`
+  let cps : List (P2 R) := f.bezier.control.flatMap (fun c => [c.1, c.2])
+  let minX := cps.foldl (fun m v => if v.x < m then v.x else m) minX0
+  let maxX := cps.foldl (fun m v => if m < v.x then v.x else m) maxX0
+  let minY := cps.foldl (fun m v => if v.y < m then v.y else m) minY0
+  let maxY := cps.foldl (fun m v => if m < v.y then v.y else m) maxY0
   let buffer := f.maxThickness + f.maxTotalLength
   if coord.spherical then
     let minCosInv := (1.0 : R) / cos minY
